@@ -51,9 +51,12 @@ impl ElfSectionsTag {
                 || (self.shndx as usize + 1).saturating_mul(entry_size) <= len,
             "ELF string table section header must lie inside the tag"
         );
-        let string_section_offset = (self.shndx as usize * entry_size) as isize;
+        // Without sections, the string table index is not bounded by the
+        // assertion above and the pointer is never dereferenced: it must not be
+        // computed with `offset`, whose preconditions it may violate.
+        let string_section_offset = self.shndx as usize * entry_size;
         let string_section_ptr =
-            unsafe { self.sections.as_ptr().offset(string_section_offset) as *const _ };
+            self.sections.as_ptr().wrapping_add(string_section_offset) as *const _;
         ElfSectionIter {
             current_section: self.sections.as_ptr(),
             remaining_sections: self.number_of_sections,
